@@ -84,20 +84,19 @@ def run(ctx, F, cg):
         ctx.violation("R33c", "healthy-constant", where(r, line), "`healthy` is a constant")
         return "constant"
     hl = hop[1][0]
-    # definitions of healthy: find the comparison switch that controls them
+    # the quorum comparison: a comparison statement between two counted quantities
     cmp_switches = []
-    for bb in sorted(b.live_blocks()):
-        t = b.blocks[bb]["t"]
-        if t[0] == "switch" and t[1][0] != "k":
-            e = od.expr_of_place(b, t[1][1], 0, set())
+    for bi, sj, pl, rv2, ln, ex in b.stmts():
+        if rv2[0] == "bin" and rv2[1] in od.CMP and not pl[1]:
+            e = ("cmp", od.CMP[rv2[1]], od.expr_of(b, rv2[2]), od.expr_of(b, rv2[3]))
             if e[0] == "cmp":
                 rs = od.roots(e)
                 if len(rs) == 2 and all(x[0] == "call" for x in rs):
-                    cmp_switches.append((bb, e, rs))
+                    cmp_switches.append((bi, e, rs, pl[0]))
     if not cmp_switches:
         ctx.violation("R33a", "no-quorum-comparison", where(r), "health_status contains no comparison between two counted quantities")
         return "no comparison"
-    bb, e, rs = cmp_switches[0]
+    bb, e, rs, cmp_local = cmp_switches[0]
     # which root is 'voters' (divided / doubled side) — decide by evaluation: predicate must be monotone increasing in active
     verdicts = []
     for (ia, iv) in ((0, 1), (1, 0)):
@@ -169,14 +168,29 @@ def run(ctx, F, cg):
             hl = ds1[0][4][1][1][0]
         else:
             break
+
+    def is_leader_val(l):
+        og = b.origins(l)
+        return any(o[0] == "call" and o[1].path.rsplit("::", 1)[-1] in ("any", "is_some", "contains_key", "find") and ("NodeMetadata" in o[1].full or "metadata" in o[1].full.lower()) for o in og)
+
+    def is_cmp_val(l):
+        return l == cmp_local or cmp_local in od.chain_locals(b, ["c", [l, []]])
+
+    def guard_of(block):
+        """locals whose `true` switch edge every path to `block` passes"""
+        out = []
+        for sb in b.live_blocks():
+            t = b.blocks[sb]["t"]
+            if t[0] == "switch" and t[1][0] != "k" and b.dominates(sb, block) and sb != block:
+                false_t = [tgt for v, tgt in t[2] if v == "0"]
+                if false_t and block not in b.reachable(false_t[0], avoid={sb}) and block in b.reachable(t[3], avoid={sb}):
+                    out.append(t[1][1][0])
+        return out
+
     defs = b.defs().get(hl, [])
-    t = b.blocks[bb]["t"]
-    false_t = [tgt for v, tgt in t[2] if v == "0"]
-    true_t = t[3]
-    if negated:
-        true_t, false_t = (false_t[0] if false_t else None), [t[3]]
-    good = True
-    leader_def = False
+    good = bool(defs)
+    conj = False
+    why = ""
     for d in defs:
         if d[0] != "stmt":
             good = False
@@ -185,19 +199,31 @@ def run(ctx, F, cg):
         if rv2[0] == "use" and rv2[1][0] == "k":
             if rv2[1][1].strip() != "const false":
                 good = False
+                why = "healthy is constant true on a path"
             continue
-        # must derive from an `any` over metadata with Leader and lie on the quorum-true side only
-        og = b.origins(d[3][0] if False else (rv2[1][1][0] if rv2[0] == "use" and rv2[1][0] != "k" else hl))
-        isany = any(o[0] == "call" and o[1].path.rsplit("::", 1)[-1] in ("any", "is_some", "contains_key", "find") for o in og)
-        on_true = false_t and d[1] not in b.reachable(false_t[0], avoid={bb}) if false_t else False
-        if isany and on_true:
-            leader_def = True
+        if rv2[0] == "bin" and rv2[1] == "BitAnd":
+            ls = [o[1][0] for o in rv2[2:4] if o[0] != "k"]
+            if len(ls) == 2 and any(is_cmp_val(x) for x in ls) and any(is_leader_val(x) for x in ls):
+                conj = True
+                continue
+        vals = [o[1][0] for o in ([rv2[1]] if rv2[0] == "use" else rv2[2:4] if rv2[0] == "bin" else []) if o[0] != "k"]
+        if rv2[0] == "bin" and rv2[1] in od.CMP and d[3][0] == cmp_local:
+            vals = [cmp_local]
+        guards = guard_of(d[1])
+        if any(is_leader_val(v) for v in vals) and any(is_cmp_val(g) or cmp_local in od.chain_locals(b, ["c", [g, []]]) for g in guards):
+            conj = True
+        elif any(is_cmp_val(v) for v in vals) and any(is_leader_val(g) for g in guards):
+            conj = True
         else:
             good = False
-    if good and leader_def:
-        ctx.ok("R33c", "healthy-conjunction", "healthy = quorum && has_leader (false on the quorum-false edge)")
+            why = "a definition of healthy is neither (leader under quorum) nor (quorum under leader)"
+    if negated:
+        good = False
+        why = "the quorum test is used negated"
+    if good and conj:
+        ctx.ok("R33c", "healthy-conjunction", "healthy = quorum && has_leader (false otherwise)")
     else:
-        ctx.violation("R33c", "healthy-conjunction", where(r, line), "`healthy` is not the conjunction of the strict-majority test and the leader test")
+        ctx.violation("R33c", "healthy-conjunction", where(r, line), "`healthy` is not the conjunction of the strict-majority test and the leader test" + (": " + why if why else ""))
     ctx.assumptions.append("two strict majorities of one finite set intersect (standard counting lemma; not re-proved)")
     return ("Decided: health_status counts voters and active voters over one set of voter ids (so repeated ids cannot inflate either side), "
             "the threshold expression extracted from MIR equals 2*active > voters on the whole table 0<=active<=voters<=8 whatever its spelling, "
